@@ -12,6 +12,11 @@
 (* which the timer fires may be seen before or after the timer (select!    *)
 (* picks at random): both are allowed.                                     *)
 (*                                                                         *)
+(* K is the keep-alive *in force*: the client's own option, or - MQTT 5 -  *)
+(* the Server Keep Alive of the CONNACK, which replaces it (0 turns the    *)
+(* keep-alive off; values below the 5 s the v5 options insist on are       *)
+(* possible this way).                                                     *)
+(*                                                                         *)
 (* A connect that gets no CONNACK is reported as a timeout exactly         *)
 (* ConnTimeout ticks after it started.                                     *)
 (***************************************************************************)
